@@ -19,7 +19,8 @@ fn run<const N: usize>(t: &[&str]) -> String {
         let res = match op {
             "new" => {
                 i += 2;
-                unit(guarded(|| r[a1] = Bitset::<N>::new()))
+                // both public ways to get the empty set: new() and the Default impl
+                unit(guarded(|| r[a1] = if a1 % 2 == 0 { Bitset::<N>::new() } else { Bitset::<N>::default() }))
             }
             "from" => {
                 let x: u64 = p(t[i + 2]);
